@@ -3,6 +3,12 @@
 import json, os
 verif = os.path.dirname(os.path.dirname(os.path.abspath(__file__)))
 N = {
+ "C01-agent-1": ("glob.Glob keeps the common string prefix when it happens to be an existing directory instead of cutting it back to its parent", "a glob whose matches' common prefix is itself a directory name (all matches below one directory that is also a match prefix)"),
+ "C01-agent-2": ("addParents collision test folded into !IsDir(), then falls through and stores a fresh implicit directory over an explicit one", "an explicit dir entry with non-default owner/mode that is also a parent of a later entry"),
+ "C01-agent-3": ("deb passes info.MTime as preferred mtime for regular files too", "a package-level mtime together with regular files whose own mtime differs"),
+ "C04-agent-1": ("apk writeTgz pads cut segments by 512 - count%512 (1..512, never 0)", "the last entry of a cut segment being an exact multiple of 512 bytes (4096-bit RSA signature, empty script)"),
+ "C04-agent-2": ("arch createScripts returns early when the common script block is empty, ignoring the Arch-specific upgrade scripts", "only archlinux.scripts.preupgrade/postupgrade configured"),
+ "C04-agent-3": ("deb tarHeader sets Size in the literal for every member class", "a symlink entry whose target exists as a non-empty file on the build host"),
  "C02-agent-1": ("parseSemver fills prerelease/metadata from the version string only when BOTH are unconfigured", "one component embedded in `version` and the other set by its own key (v1.4.0+git… with prerelease: rc2)"),
  "C02-agent-2": ("deb.ensureValidArch consults the GOARCH table before the deb.arch override", "generic arch that is a key of the deb table (arm6) together with a deb.arch override"),
  "C02-agent-3": ("ipk multiline helper tests a line for blankness before trimming it", "a whitespace-only or CRLF 'blank' line inside the description"),
